@@ -20,6 +20,7 @@ type Config struct {
 	Shard    int // this process explores the level-1 alternatives with index % NShards == Shard
 	NShards  int
 	NoCache  bool
+	Flat     bool // Bound counts deviations: any non-default choice costs one
 	Delay    bool // Bound counts delays (deviations from the deterministic default scheduler) instead of preemptions
 	KeepLog  bool
 }
@@ -104,6 +105,7 @@ func (x *explorer) runOnce(prefix []int, expect []uint64, keepLog bool) *Exec {
 		wantLog:    keepLog,
 		keyRunning: x.cfg.Bound >= 0,
 		delayMode:  x.cfg.Delay && x.cfg.Bound >= 0,
+		flatMode:   x.cfg.Flat && x.cfg.Bound >= 0,
 	}
 	e.H = &H{e: e, params: x.cfg.Params}
 	if !x.cfg.NoCache && x.post != nil {
